@@ -168,7 +168,7 @@ def order_batch(acc, batch):
 
 
 QUICK = [("fork", "slurm", 5), ("chain", "sge", 5), ("fork", "lsf", 5)]
-THOROUGH = [(wf, be, 7) for wf in ("fork", "chain") for be in ("slurm", "sge", "lsf")] + [("diamond", "slurm", 3)]
+THOROUGH = [(wf, be, 8) for wf in ("fork", "chain") for be in ("slurm", "sge", "lsf")] + [("diamond", be, 5) for be in ("slurm", "lsf")]
 
 
 def run(ctx):
